@@ -140,7 +140,7 @@ class Check(common.Check):
     ]
 
     def rule(self):
-        return ('programs = trees of 1-6 routines (nesting <=3) with 1-30 yields each, deltas dyadic incl. 0, logs, '
+        return ('programs = trees of 1-6 routines (nesting <=3) with 1-30 yields each, deltas dyadic incl. 0, logs, sends with latency, main.process(tailtime), '
                 'spawns on SystemClock / TempoClocks (tempi 2^k) / AppClock (NRT), tempo changes by the root (`tempo=` and '
                 '`etempo`), bodies that raise (logged by the clock) while other routines go on; four '
                 'classes: plain multi-clock, single-clock with tempo changes, multi-clock with tempo changes, '
@@ -181,6 +181,9 @@ class Check(common.Check):
                 acts.append(['y', rng.choice(DELTAS)])
                 if rng.random() < 0.5:
                     acts.append(['log'])
+                elif rng.random() < 0.25:
+                    # a bundle stamped 1/4 s (even id) or 5/4 s (odd id) after the logical time
+                    acts.append(['send', rng.randrange(100)])
             if rng.random() < 0.12:
                 # the routine leaves the clock: it yields a non-number (True / False / None / str / object)
                 acts.insert(rng.randrange(len(acts) + 1),
@@ -212,7 +215,9 @@ class Check(common.Check):
             else:
                 vals = [rng.choice(['1/2', '1', '3', '1/4', '0', '1/1024']) for _ in range(rng.randint(1, 5))]
             late = {'mode': mode, 'vals': vals}
-        return {'tempi': tempi, 'root': root, 'rts': rts, 'late': late, 'klass': klass}
+        # main.process(tailtime): the tail only lengthens the score, logical time ends at the last wake-up
+        tail = rng.choice(['0', '0', '1/2', '2', '3'])
+        return {'tempi': tempi, 'root': root, 'rts': rts, 'late': late, 'klass': klass, 'tail': tail}
 
     def gen(self, rng, n):
         return [self.gen_one(rng) for _ in range(n)]
@@ -341,8 +346,9 @@ class Check(common.Check):
                 return {'what': f'NRT logical time went backwards between executed tasks: {fr(a)} then {fr(b)}',
                         'signature': 'c05:nrt-monotone'}
         if ts and (F(nrt['elapsed']) != ts[-1] or F(nrt['elapsed']) != max(ts)):
-            return {'what': f'NRT elapsed time ends at {nrt["elapsed"]}, last scheduled instant is {fr(max(ts))}',
-                    'signature': 'c05:nrt-elapsed'}
+            return {'what': f'NRT: after main.process(tailtime={case.get("tail", "0")}) the logical time is '
+                            f'{nrt["elapsed"]} s; the last performed instant is {fr(max(ts))} s (tail time and bundle '
+                            f'latencies only lengthen the score)', 'signature': 'c05:nrt-elapsed'}
         if out['rt'] is not None and not out['rt'].get('skipped'):
             rt = out['rt']
             if rt.get('error') and rt['error'].startswith('livelock'):
